@@ -68,14 +68,12 @@ instance (E : Ext) (lang : LangCfg) (it : RustItem) : Decidable (ItemIn E lang i
   unfold ItemIn
   cases lang <;> infer_instance
 
-/-- the Scala package name splits at its last dot into two dotted fragments -/
-def scalaPackageOk (cfg : Scala.Cfg) : Prop :=
-  match Scala.rsplitOnceDot cfg.package with
-  | some (parent, last) => Dotted parent ∧ Dotted last
-  | none => False
+/-- the Scala package name is a dotted identifier fragment (with or without a dot: since the `fix:`
+commit fb91590 a name without a dot is its own innermost package) -/
+def scalaPackageOk (cfg : Scala.Cfg) : Prop := Dotted cfg.package
 
 instance (cfg : Scala.Cfg) : Decidable (scalaPackageOk cfg) := by
-  unfold scalaPackageOk; split <;> infer_instance
+  unfold scalaPackageOk; infer_instance
 
 def versionOk (v : Option Str) : Prop := ∀ x, v = some x → Dotted x
 instance (v : Option Str) : Decidable (versionOk v) := by unfold versionOk; infer_instance
@@ -287,13 +285,7 @@ theorem scala_generateFrom (cfg : Scala.Cfg) (hc : CfgIn (.scala cfg)) (E : Ext)
     have hd : C10Scala.DataOk d :=
       ⟨fun s hs => hit (.struct s) (by simp [C12L.itemsOf, hs]), fun e he => hit (.enum e) (by simp [C12L.itemsOf, he]),
        fun a ha => hit (.alias a) (by simp [C12L.itemsOf, ha])⟩
-    have hsplit : ∃ parent last, Scala.rsplitOnceDot cfg.package = some (parent, last) ∧ Dotted parent ∧ Dotted last := by
-      have := hc.2.2
-      unfold scalaPackageOk at this
-      split at this
-      · rename_i parent last hsp; exact ⟨parent, last, hsp, this.1, this.2⟩
-      · exact this.elim
-    have hfile := C10_scala_file cfg hc.1 d hd hc.2.1 hsplit text hg
+    have hfile := C10_scala_file cfg hc.1 d hd hc.2.1 hc.2.2 text hg
     intro o hoo
     rcases List.mem_cons.1 hoo with rfl | hoo
     · exact hfile
@@ -400,6 +392,10 @@ def scCfg : Scala.Cfg :=
 example : CfgIn (.scala scCfg) := by decide +kernel
 example : ∀ it ∈ C12L.itemsOf data2, ItemIn asciiExt (.scala scCfg) it := by decide +kernel
 example : (generateAll asciiExt false [(s%"my_crate", data2, none)] (.scala scCfg)).isOk = true := by decide +kernel
+/-- a package name without a dot is in scope too (the repaired finding `scala-package-without-dot`) -/
+example : CfgIn (.scala { scCfg with package := s%"pkg" }) ∧
+    (generateAll asciiExt false [(s%"my_crate", data2, none)] (.scala { scCfg with package := s%"pkg" })).isOk = true := by
+  decide +kernel
 
 /-! ### Go (`DateTime`: the import block lists `encoding/json` and `time`) -/
 
